@@ -174,7 +174,9 @@ pub struct WDim {
 pub struct WStruct {
     pub version: u64,
     pub dims: Vec<WDim>,
-    /// Bytes following the dimensions that belong to the structure (format extensions), kept raw.
+    /// Next attribute id (format version 1 = "V2" only).
+    pub next_id: Option<u64>,
+    /// Anything after that (nothing in the known versions), kept raw.
     pub tail: Vec<u8>,
 }
 
@@ -213,10 +215,16 @@ impl WStruct {
                 attrs,
             });
         }
+        let next_id = if version >= 1 {
+            Some(c.leb("struct.next_id")?)
+        } else {
+            None
+        };
         let tail = c.take(c.remaining())?;
         Ok(Self {
             version,
             dims,
+            next_id,
             tail,
         })
     }
@@ -241,6 +249,9 @@ impl WStruct {
                 leb_encode(a.hint, out);
                 leb_encode(a.status, out);
             }
+        }
+        if let Some(n) = self.next_id {
+            leb_encode(n, out);
         }
         out.extend_from_slice(&self.tail);
     }
